@@ -42,7 +42,7 @@ def run_case(case):
     nz = len(St["z"])
     prec = "double" if rng.random() < 0.7 else "single"
     tol = solve.tol(prec, St["G"], cr=St["cr"])
-    levels, lkind = solve.pick_levels(rng, nz, str(rng.choice(["top", "scalar", "few", "with_top"])))
+    levels, lkind = solve.pick_levels(rng, nz, str(rng.choice(["top", "scalar", "few", "with_top", "shuffled"])))
     nl = solve.nlev(levels)
     viol, sigs = [], []
     resid = {f"flux_{prec}": 0.0, f"conc_{prec}": 0.0}
